@@ -1,5 +1,504 @@
-import CpModel.Reader
+import CpProofs.C05Lemmas
+/-!
+  C05 — the request-body stream is exact, ordered and bounded.
+
+  `CpModel.Reader` transcribes `SizedReader` (buffer, bytes_read, push-back, socket fragmentation,
+  maxbytes, MaxSizeExceeded event).  `CpModel.Cursor` is the specification: a cursor over the
+  declared body.  The theorems below hold for EVERY body, declared length (exact, shorter, longer,
+  absent), buffer size ≥ 1, fragmentation plan, failure event and operation history.
+
+  * `C05_step_refines`  one operation from any reachable state (invariant `Inv`) either raises 413
+    or returns exactly the cursor's answer and advances the abstract rest by what it returned;
+  * `C05_refines_cursor`  whole histories: the results up to the first 413 are a prefix of the
+    cursor's results; error-free histories agree completely, and what they delivered followed by the
+    undelivered rest is the declared body (each byte once, in order);
+  * `C05_never_overreads`  the underlying stream offset never exceeds the declared length — after
+    any history, errors included;
+  * `C05_exhaustive`  `read()` after any error-free history returns the whole undelivered rest;
+  * `C05_maxbytes_*`  with `maxbytes = m > 0`: never more than m bytes delivered; a body within
+    the limit is never refused; a longer body read to the end is refused with 413;
+  * `C05_readlines_nolength`, `C05_regression_F5`  the two repaired defects, now positive statements;
+  * `C05_frag_independent`, `C05_never_fuel`, `C05_readline_n_quirk`.
+-/
 namespace CpProofs.C05
-open CpModel.Reader
-theorem stub : True := trivial
+open CpModel.Reader CpModel.Cursor
+
+/-- the declared body: what the application is entitled to -/
+def avail (cfg : Cfg) (body : Bytes) : Bytes :=
+  match cfg.length with
+  | some L => body.take L
+  | none => body
+
+def outBytes : Out → Bytes
+  | .bytes b => b
+  | .lines ls => ls.flatten
+  | _ => []
+
+/-- everything a list of results handed to the application, in order -/
+def delivered (rs : List Out) : Bytes := (rs.map outBytes).flatten
+
+/-- results up to (not including) the first 413 -/
+def okPrefix (rs : List Out) : List Out := rs.takeWhile (fun o => !(o == Out.err413))
+
+theorem init_inv (cfg : Cfg) (body : Bytes) (frag : List Nat) (fa : Option Nat) :
+    Inv cfg (init body frag fa) := ⟨rfl, fun _ _ => Nat.zero_le _⟩
+
+theorem rest_init (cfg : Cfg) (body : Bytes) (frag : List Nat) (fa : Option Nat) :
+    rest cfg (init body frag fa) = avail cfg body := by
+  simp only [rest, tailOf, cap, init, avail, List.nil_append]
+  cases cfg.length <;> simp
+
+theorem total_init (cfg : Cfg) (body : Bytes) (frag : List Nat) (fa : Option Nat) :
+    total cfg (init body frag fa) = (avail cfg body).length := by
+  simp only [total, rest_init]; simp [init]
+
+/-! ### one operation -/
+
+theorem loopK_remaining (cfg : Cfg) (s : St) (size : Option Nat) (hi : Inv cfg s) :
+    loopK (remainingOf cfg s size) (rest cfg s).length
+      = readCount cfg.length.isSome size (rest cfg s).length := by
+  have eR := rest_length cfg s
+  cases hl : cfg.length with
+  | none =>
+    rw [remainingOf_none _ _ _ hl]
+    cases size with
+    | none => rfl
+    | some k => cases k <;> simp [loopK, readCount]
+  | some L =>
+    have hc : cap cfg s = L - s.off := by simp [cap, hl]
+    have := hi.acct
+    have := hi.bound L hl
+    have hle : (rest cfg s).length ≤ L - s.bytesRead := by omega
+    unfold remainingOf
+    rw [hl]
+    cases size with
+    | none => simp only [loopK, readCount]; omega
+    | some k =>
+      cases k with
+      | zero => simp [loopK, readCount]; omega
+      | succ k =>
+        by_cases hk : k + 1 < L - s.bytesRead
+        · have : (k + 1 ≠ 0 ∧ k + 1 < L - s.bytesRead) := ⟨by omega, hk⟩
+          simp only
+          rw [if_pos this]
+          simp only [loopK, readCount]
+        · have : ¬ (k + 1 ≠ 0 ∧ k + 1 < L - s.bytesRead) := fun h => hk h.2
+          simp only
+          rw [if_neg this]
+          simp only [loopK, readCount]
+          omega
+
+theorem specStep_readline (hasLen : Bool) (R : Bytes) (n : Option Nat) (h : n ≠ some 0) :
+    specStep hasLen R (.readline n) = (.bytes (takeLine R), (takeLine R).length) := by
+  cases n with
+  | none => rfl
+  | some k => cases k with
+    | zero => exact absurd rfl h
+    | succ k => rfl
+
+def StepPost (cfg : Cfg) (s : St) (op : Op) (p : Out × St) : Prop :=
+  Inv cfg p.2 ∧ p.2.failAt.isSome = s.failAt.isSome ∧ total cfg p.2 = total cfg s ∧ p.1 ≠ .fuel ∧
+  (Enough cfg s → Enough cfg p.2) ∧
+  (p.1 = .err413 → over cfg p.2.bytesRead = true ∨ s.failAt.isSome = true) ∧
+  (p.1 ≠ .err413 →
+    p.1 = (specStep cfg.length.isSome (rest cfg s) op).1 ∧
+    rest cfg p.2 = (rest cfg s).drop (specStep cfg.length.isSome (rest cfg s) op).2 ∧
+    p.2.bytesRead = s.bytesRead + (specStep cfg.length.isSome (rest cfg s) op).2 ∧
+    (over cfg s.bytesRead = false → over cfg p.2.bytesRead = false))
+
+/-- **Refinement, one step.**  From any state satisfying the accounting invariant, every operation
+    either raises 413 or returns exactly what the cursor returns and advances by exactly that much. -/
+theorem C05_step_refines (cfg : Cfg) (hb : 1 ≤ cfg.bufsize) (s : St) (hi : Inv cfg s) (op : Op) :
+    StepPost cfg s op (step cfg s op) := by
+  unfold StepPost
+  cases op with
+  | read n =>
+    have hp := read_post cfg hb s n hi
+    simp only [step]
+    generalize CpModel.Reader.read cfg s n = p at *
+    obtain ⟨r, s1⟩ := p
+    obtain ⟨i1, f1, t1, nf1, en1, er1, ok1⟩ := hp
+    cases r with
+    | fuel => exact absurd rfl nf1
+    | err413 => exact ⟨i1, f1, t1, by simp, en1, fun _ => er1 rfl, by simp⟩
+    | ok b =>
+      obtain ⟨e1, e2, e3, _, e5⟩ := ok1 b rfl
+      rw [loopK_remaining cfg s n hi] at e1 e2
+      refine ⟨i1, f1, t1, by simp, en1, by simp, fun _ => ⟨?_, ?_, ?_, e5⟩⟩
+      · simp only [specStep]; rw [e1]
+      · simpa [specStep] using e2
+      · simp only [specStep]; rw [e3, e1]; simp
+        unfold readCount; split <;> (try split) <;> omega
+  | readline n =>
+    by_cases h0 : n = some 0
+    · subst h0
+      simp only [step, readline_zero]
+      refine ⟨hi, by simp, by simp, by simp, fun h => h, by simp, fun _ => ⟨rfl, ?_, ?_, fun h => h⟩⟩
+      · simp [specStep]
+      · simp [specStep]
+    · have hp := readline_post cfg hb s n hi h0
+      simp only [step]
+      generalize readline cfg s n = p at *
+      obtain ⟨r, s1⟩ := p
+      obtain ⟨i1, f1, t1, nf1, en1, er1, ok1⟩ := hp
+      cases r with
+      | fuel => exact absurd rfl nf1
+      | err413 => exact ⟨i1, f1, t1, by simp, en1, fun _ => er1 rfl, by simp⟩
+      | ok b =>
+        obtain ⟨e1, e2, e3, _, e5⟩ := ok1 b rfl
+        rw [specStep_readline _ _ _ h0]
+        exact ⟨i1, f1, t1, by simp, en1, by simp, fun _ => ⟨by simpa using e1, e2, e3, e5⟩⟩
+  | readlines h =>
+    have hp := readlines_post cfg hb s h hi
+    simp only [step]
+    generalize readlines cfg s h = p at *
+    obtain ⟨r, s1⟩ := p
+    obtain ⟨i1, f1, t1, nf1, en1, er1, ok1⟩ := hp
+    cases r with
+    | fuel => exact absurd rfl nf1
+    | err413 => exact ⟨i1, f1, t1, by simp, en1, fun _ => er1 rfl, by simp⟩
+    | ok ls =>
+      obtain ⟨ls', e1, e2, e3, e4, e5⟩ := ok1 ls rfl
+      have := e2 ((rest cfg s).length + 1) (by omega)
+      simp only [List.nil_append] at e1
+      subst e1
+      refine ⟨i1, f1, t1, by simp, en1, by simp, fun _ => ⟨?_, ?_, ?_, e5⟩⟩
+      · simp only [specStep]; rw [← this]
+      · simp only [specStep]; rw [← this]; exact e3
+      · simp only [specStep]; rw [← this]; exact e4
+  | next =>
+    have hp := readline_post cfg hb s none hi (by simp)
+    simp only [step]
+    generalize readline cfg s none = p at *
+    obtain ⟨r, s1⟩ := p
+    obtain ⟨i1, f1, t1, nf1, en1, er1, ok1⟩ := hp
+    cases r with
+    | fuel => exact absurd rfl nf1
+    | err413 => exact ⟨i1, f1, t1, by simp, en1, fun _ => er1 rfl, by simp⟩
+    | ok b =>
+      obtain ⟨e1, e2, e3, _, e5⟩ := ok1 b rfl
+      simp only [List.nil_append] at e1
+      simp only
+      by_cases hbe : b.isEmpty = true
+      · simp only [hbe, if_true]
+        have hb0 : b = [] := by simpa using hbe
+        have hR : rest cfg s = [] := (takeLine_eq_nil _).mp (by rw [← e1, hb0])
+        refine ⟨i1, f1, t1, by simp, en1, by simp, fun _ => ⟨?_, ?_, ?_, e5⟩⟩
+        · simp [specStep, hR]
+        · rw [e2, hR]; simp [specStep]
+        · rw [e3, hR]; simp [specStep, takeLine]
+      · simp only [hbe, Bool.false_eq_true, if_false]
+        have hRne : (rest cfg s).isEmpty = false := by
+          cases hR : rest cfg s with
+          | nil => rw [hR] at e1; simp [takeLine] at e1; simp [e1] at hbe
+          | cons _ _ => rfl
+        refine ⟨i1, f1, t1, by simp, en1, by simp, fun _ => ⟨?_, ?_, ?_, e5⟩⟩
+        · simp [specStep, hRne, e1]
+        · simpa [specStep, hRne] using e2
+        · simpa [specStep, hRne] using e3
+
+
+/-! ### whole histories -/
+
+theorem takeLines_flatten : ∀ sf hint seen (R : Bytes),
+    (takeLines sf hint seen R).flatten = R.take (takeLines sf hint seen R).flatten.length := by
+  intro sf
+  induction sf with
+  | zero => intro hint seen R; simp [takeLines]
+  | succ sf ih =>
+    intro hint seen R
+    simp only [takeLines]
+    split
+    · simp
+    · split
+      · simp [takeLine_prefix]
+      · have := ih hint (seen + (takeLine R).length) (R.drop (takeLine R).length)
+        simp only [List.flatten_cons, List.length_append]
+        rw [List.take_add, takeLine_prefix, ← this]
+
+theorem specStep_bytes (hasLen : Bool) (R : Bytes) (op : Op) :
+    outBytes (specStep hasLen R op).1 = R.take (specStep hasLen R op).2 := by
+  cases op with
+  | read n => rfl
+  | readline n =>
+    by_cases h0 : n = some 0
+    · subst h0; simp [specStep, outBytes]
+    · rw [specStep_readline _ _ _ h0]; simp [outBytes, takeLine_prefix]
+  | readlines h => simp only [specStep, outBytes]; exact takeLines_flatten _ _ _ _
+  | next =>
+    simp only [specStep]
+    split
+    · simp [outBytes]
+    · simp [outBytes, takeLine_prefix]
+
+theorem run_cons (cfg : Cfg) (s : St) (op : Op) (ops : List Op) :
+    run cfg s (op :: ops) =
+      ((step cfg s op).1 :: (run cfg (step cfg s op).2 ops).1, (run cfg (step cfg s op).2 ops).2) := rfl
+
+theorem run_snoc (cfg : Cfg) (s : St) (ops : List Op) (op : Op) :
+    run cfg s (ops ++ [op]) =
+      ((run cfg s ops).1 ++ [(step cfg (run cfg s ops).2 op).1], (step cfg (run cfg s ops).2 op).2) := by
+  induction ops generalizing s with
+  | nil => rfl
+  | cons o os ih => rw [List.cons_append, run_cons, run_cons, ih]; rfl
+
+theorem specRun_cons (hasLen : Bool) (R : Bytes) (op : Op) (ops : List Op) :
+    specRun hasLen R (op :: ops) =
+      (specStep hasLen R op).1 :: specRun hasLen (R.drop (specStep hasLen R op).2) ops := rfl
+
+theorem over_mono' (cfg : Cfg) (a b : Nat) (h : over cfg a = true) (hab : a ≤ b) : over cfg b = true := by
+  cases hb : over cfg b with
+  | true => rfl
+  | false => have := over_mono cfg b a hb hab; rw [this] at h; cases h
+
+theorem run_refines (cfg : Cfg) (hb : 1 ≤ cfg.bufsize) : ∀ ops s, Inv cfg s →
+    Inv cfg (run cfg s ops).2 ∧ Out.fuel ∉ (run cfg s ops).1 ∧
+    (run cfg s ops).2.failAt.isSome = s.failAt.isSome ∧
+    total cfg (run cfg s ops).2 = total cfg s ∧
+    okPrefix (run cfg s ops).1 <+: specRun cfg.length.isSome (rest cfg s) ops ∧
+    ((∀ o ∈ (run cfg s ops).1, o ≠ Out.err413) →
+        (run cfg s ops).1 = specRun cfg.length.isSome (rest cfg s) ops ∧
+        delivered (run cfg s ops).1 ++ rest cfg (run cfg s ops).2 = rest cfg s ∧
+        (run cfg s ops).2.bytesRead = s.bytesRead + (delivered (run cfg s ops).1).length ∧
+        (over cfg s.bytesRead = false → over cfg (run cfg s ops).2.bytesRead = false)) ∧
+    (s.failAt = none → over cfg (total cfg s) = false → ∀ o ∈ (run cfg s ops).1, o ≠ Out.err413) := by
+  intro ops
+  induction ops with
+  | nil =>
+    intro s hi
+    refine ⟨hi, by simp [run], rfl, rfl, by simp [run, okPrefix, specRun], ?_, by simp [run]⟩
+    intro _
+    simp [run, specRun, delivered]
+  | cons op ops ih =>
+    intro s hi
+    rw [run_cons, specRun_cons]
+    obtain ⟨i1, f1, t1, nf1, _, er1, ok1⟩ := C05_step_refines cfg hb s hi op
+    obtain ⟨j1, j2, j3, j4, j5, j6, j7⟩ := ih (step cfg s op).2 i1
+    generalize step cfg s op = p at *
+    obtain ⟨o, s1⟩ := p
+    simp only at i1 f1 t1 nf1 er1 ok1 j1 j2 j3 j4 j5 j6 j7 ⊢
+    refine ⟨j1, ?_, by rw [j3, f1], by rw [j4, t1], ?_, ?_, ?_⟩
+    · simp only [List.mem_cons, not_or]; exact ⟨fun h => nf1 h.symm, j2⟩
+    · by_cases he : o = Out.err413
+      · subst he; simp [okPrefix]
+      · obtain ⟨e1, e2, _, _⟩ := ok1 he
+        have : okPrefix (o :: (run cfg s1 ops).1) = o :: okPrefix (run cfg s1 ops).1 := by
+          simp [okPrefix, he]
+        rw [this, List.cons_prefix_cons]
+        rw [e2] at j5
+        exact ⟨e1, j5⟩
+    · intro hall
+      have he : o ≠ Out.err413 := hall o (by simp)
+      obtain ⟨e1, e2, e3, e4⟩ := ok1 he
+      obtain ⟨k1, k2, k3, k4⟩ := j6 (fun o' ho' => hall o' (by simp [ho']))
+      refine ⟨?_, ?_, ?_, fun hs => k4 (e4 hs)⟩
+      · rw [k1, e2, ← e1]
+      · have hbytes := specStep_bytes cfg.length.isSome (rest cfg s) op
+        rw [← e1] at hbytes
+        simp only [delivered, List.map_cons, List.flatten_cons] at k2 ⊢
+        rw [List.append_assoc, k2, e2, hbytes, List.take_append_drop]
+      · have hbytes := specStep_bytes cfg.length.isSome (rest cfg s) op
+        rw [← e1] at hbytes
+        simp only [delivered, List.map_cons, List.flatten_cons, List.length_append] at k3 ⊢
+        have hlen : (outBytes o).length = (specStep cfg.length.isSome (rest cfg s) op).2 := by
+          rw [hbytes, List.length_take]
+          have : rest cfg s1 = _ := e2
+          have hl := congrArg List.length this
+          have hT : total cfg s1 = total cfg s := t1
+          simp only [total] at hT
+          simp only [List.length_drop] at hl
+          omega
+        rw [k3, e3, hlen]; omega
+    · intro hfa hov o' ho'
+      simp only [List.mem_cons] at ho'
+      rcases ho' with rfl | ho'
+      · intro he
+        rcases er1 he with h | h
+        · have hle : s1.bytesRead ≤ total cfg s := by rw [← t1]; simp [total]
+          have := over_mono' cfg _ _ h hle
+          rw [this] at hov; cases hov
+        · rw [hfa] at h; cases h
+      · have hfa1 : s1.failAt = none := by
+          rw [hfa] at f1; cases h : s1.failAt with
+          | none => rfl
+          | some _ => rw [h] at f1; cases f1
+        exact j7 hfa1 (by rw [t1]; exact hov) o' ho'
+
+
+/-! ### the property theorems (initial state = fresh reader over `body`) -/
+
+/-- **C05, refinement.**  For every configuration with `bufsize ≥ 1`, body, fragmentation plan,
+    MaxSizeExceeded event and operation history: the results up to the first 413 are exactly the
+    cursor's results over `body[:length]`; an error-free history agrees completely, and what it
+    delivered followed by the undelivered rest is the declared body (every byte once, in order). -/
+theorem C05_refines_cursor (cfg : Cfg) (hb : 1 ≤ cfg.bufsize) (body : Bytes) (frag : List Nat)
+    (fa : Option Nat) (ops : List Op) :
+    okPrefix (run cfg (init body frag fa) ops).1 <+: specRun cfg.length.isSome (avail cfg body) ops ∧
+    ((∀ o ∈ (run cfg (init body frag fa) ops).1, o ≠ Out.err413) →
+      (run cfg (init body frag fa) ops).1 = specRun cfg.length.isSome (avail cfg body) ops ∧
+      delivered (run cfg (init body frag fa) ops).1 ++ rest cfg (run cfg (init body frag fa) ops).2
+        = avail cfg body) := by
+  obtain ⟨_, _, _, _, h5, h6, _⟩ := run_refines cfg hb ops _ (init_inv cfg body frag fa)
+  rw [rest_init] at h5 h6
+  exact ⟨h5, fun h => ⟨(h6 h).1, (h6 h).2.1⟩⟩
+
+/-- **C05, bounded.**  After ANY history (errors included) the underlying stream has handed out at
+    most the declared number of bytes: a pipelined following request is left intact.  (`off` is the
+    ghost counter incremented by `fpRead` by exactly the number of bytes it removes from `src`.) -/
+theorem C05_never_overreads (cfg : Cfg) (hb : 1 ≤ cfg.bufsize) (body : Bytes) (frag : List Nat)
+    (fa : Option Nat) (ops : List Op) (L : Nat) (hL : cfg.length = some L) :
+    (run cfg (init body frag fa) ops).2.off ≤ L :=
+  (run_refines cfg hb ops _ (init_inv cfg body frag fa)).1.bound L hL
+
+/-- **C05, exhaustive.**  After any error-free history, `read()` either raises 413 or returns the
+    whole undelivered rest, so that everything delivered is exactly the declared body. -/
+theorem C05_exhaustive (cfg : Cfg) (hb : 1 ≤ cfg.bufsize) (body : Bytes) (frag : List Nat)
+    (fa : Option Nat) (ops : List Op)
+    (hok : ∀ o ∈ (run cfg (init body frag fa) ops).1, o ≠ Out.err413) :
+    (step cfg (run cfg (init body frag fa) ops).2 (.read none)).1 = Out.err413 ∨
+    ((step cfg (run cfg (init body frag fa) ops).2 (.read none)).1
+        = Out.bytes (rest cfg (run cfg (init body frag fa) ops).2) ∧
+     delivered (run cfg (init body frag fa) ops).1 ++ rest cfg (run cfg (init body frag fa) ops).2
+        = avail cfg body) := by
+  obtain ⟨i, _, _, _, _, h6, _⟩ := run_refines cfg hb ops _ (init_inv cfg body frag fa)
+  obtain ⟨_, k2, _, _⟩ := h6 hok
+  rw [rest_init] at k2
+  obtain ⟨_, _, _, _, _, _, ok1⟩ := C05_step_refines cfg hb _ i (.read none)
+  by_cases he : (step cfg (run cfg (init body frag fa) ops).2 (.read none)).1 = Out.err413
+  · left; exact he
+  · right
+    obtain ⟨e1, _, _, _⟩ := ok1 he
+    refine ⟨?_, k2⟩
+    rw [e1]; simp [specStep, readCount]
+
+/-- **C05, maxbytes (1).**  With `maxbytes = m > 0` an error-free history delivers at most `m` bytes. -/
+theorem C05_maxbytes_delivered_le (cfg : Cfg) (hb : 1 ≤ cfg.bufsize) (body : Bytes) (frag : List Nat)
+    (fa : Option Nat) (ops : List Op) (m : Nat) (hm : cfg.maxbytes = some m) (hm0 : m ≠ 0)
+    (hok : ∀ o ∈ (run cfg (init body frag fa) ops).1, o ≠ Out.err413) :
+    (delivered (run cfg (init body frag fa) ops).1).length ≤ m := by
+  obtain ⟨_, _, _, _, _, h6, _⟩ := run_refines cfg hb ops _ (init_inv cfg body frag fa)
+  obtain ⟨_, _, k3, k4⟩ := h6 hok
+  have hbr : (init body frag fa).bytesRead = 0 := rfl
+  have h0 : over cfg (init body frag fa).bytesRead = false := by simp [over, hm, hbr]
+  have := k4 h0
+  rw [k3, hbr] at this
+  simp only [over, hm, Nat.zero_add, Bool.and_eq_false_iff, decide_eq_false_iff_not] at this
+  rcases this with h | h
+  · simp at h; exact absurd h hm0
+  · omega
+
+/-- **C05, maxbytes (2).**  A body within the limit (or no limit) is never refused, whatever the
+    history, as long as the server-wide limit event does not fire. -/
+theorem C05_maxbytes_no_spurious_413 (cfg : Cfg) (hb : 1 ≤ cfg.bufsize) (body : Bytes) (frag : List Nat)
+    (ops : List Op) (hfit : over cfg (avail cfg body).length = false) :
+    ∀ o ∈ (run cfg (init body frag none) ops).1, o ≠ Out.err413 := by
+  obtain ⟨_, _, _, _, _, _, h7⟩ := run_refines cfg hb ops _ (init_inv cfg body frag none)
+  exact h7 rfl (by rw [total_init]; exact hfit)
+
+/-- **C05, maxbytes (3).**  With `maxbytes = m > 0` and a declared body longer than `m`, a history
+    that tries to read to the end is refused: after any error-free history `read()` raises 413. -/
+theorem C05_maxbytes_refused (cfg : Cfg) (hb : 1 ≤ cfg.bufsize) (body : Bytes) (frag : List Nat)
+    (fa : Option Nat) (ops : List Op) (m : Nat) (hm : cfg.maxbytes = some m) (hm0 : m ≠ 0)
+    (hlong : m < (avail cfg body).length)
+    (hok : ∀ o ∈ (run cfg (init body frag fa) ops).1, o ≠ Out.err413) :
+    (step cfg (run cfg (init body frag fa) ops).2 (.read none)).1 = Out.err413 := by
+  -- otherwise the history extended by `read()` is error-free and delivered the whole body
+  have hrun := run_snoc cfg (init body frag fa) ops (.read none)
+  cases hres : (step cfg (run cfg (init body frag fa) ops).2 (.read none)).1 with
+  | err413 => rfl
+  | fuel =>
+    have := (run_refines cfg hb (ops ++ [.read none]) _ (init_inv cfg body frag fa)).2.1
+    rw [hrun] at this
+    simp [hres] at this
+  | bytes b =>
+    exfalso
+    have hok' : ∀ o ∈ (run cfg (init body frag fa) (ops ++ [.read none])).1, o ≠ Out.err413 := by
+      rw [hrun]; intro o ho
+      simp only [List.mem_append, List.mem_singleton] at ho
+      rcases ho with ho | ho
+      · exact hok o ho
+      · rw [ho, hres]; simp
+    have hle := C05_maxbytes_delivered_le cfg hb body frag fa (ops ++ [.read none]) m hm hm0 hok'
+    rcases C05_exhaustive cfg hb body frag fa ops hok with h | ⟨h1, h2⟩
+    · rw [hres] at h; cases h
+    · rw [hrun] at hle
+      simp only [delivered, List.map_append, List.flatten_append, List.map_cons, List.map_nil,
+        List.flatten_cons, List.flatten_nil, List.append_nil, h1, outBytes] at hle h2
+      rw [h2] at hle; omega
+  | lines ls =>
+    rcases C05_exhaustive cfg hb body frag fa ops hok with h | ⟨h1, _⟩
+    · rw [hres] at h; cases h
+    · rw [hres] at h1; cases h1
+  | stop =>
+    rcases C05_exhaustive cfg hb body frag fa ops hok with h | ⟨h1, _⟩
+    · rw [hres] at h; cases h
+    · rw [hres] at h1; cases h1
+
+/-- **F6 (repaired), now a positive statement.**  Without a declared length and without a limit,
+    `readlines()` returns all lines of the body. -/
+theorem C05_readlines_nolength (cfg : Cfg) (hb : 1 ≤ cfg.bufsize) (hl : cfg.length = none)
+    (hm : cfg.maxbytes = none) (body : Bytes) (frag : List Nat) :
+    (step cfg (init body frag none) (.readlines none)).1
+      = Out.lines (takeLines (body.length + 1) none 0 body) := by
+  obtain ⟨_, _, _, _, _, er1, ok1⟩ := C05_step_refines cfg hb _ (init_inv cfg body frag none) (.readlines none)
+  have hne : (step cfg (init body frag none) (.readlines none)).1 ≠ Out.err413 := by
+    intro he
+    rcases er1 he with h | h
+    · simp [over, hm] at h
+    · simp [init] at h
+  obtain ⟨e1, _, _, _⟩ := ok1 hne
+  rw [e1, rest_init]
+  simp [specStep, avail, hl]
+
+/-- Results never depend on how the connection fragments the bytes (no limit configured). -/
+theorem C05_frag_independent (cfg : Cfg) (hb : 1 ≤ cfg.bufsize) (hm : cfg.maxbytes = none)
+    (body : Bytes) (frag₁ frag₂ : List Nat) (ops : List Op) :
+    (run cfg (init body frag₁ none) ops).1 = (run cfg (init body frag₂ none) ops).1 := by
+  have hfit : over cfg (avail cfg body).length = false := by simp [over, hm]
+  have h1 := (C05_refines_cursor cfg hb body frag₁ none ops).2
+    (C05_maxbytes_no_spurious_413 cfg hb body frag₁ ops hfit)
+  have h2 := (C05_refines_cursor cfg hb body frag₂ none ops).2
+    (C05_maxbytes_no_spurious_413 cfg hb body frag₂ ops hfit)
+  rw [h1.1, h2.1]
+
+/-- The fuel handed to the model's loops always suffices: `fuel` is never a result. -/
+theorem C05_never_fuel (cfg : Cfg) (hb : 1 ≤ cfg.bufsize) (body : Bytes) (frag : List Nat)
+    (fa : Option Nat) (ops : List Op) : Out.fuel ∉ (run cfg (init body frag fa) ops).1 :=
+  (run_refines cfg hb ops _ (init_inv cfg body frag fa)).2.1
+
+/-! ### concrete witnesses (non-vacuity, quirks, regression) -/
+
+/-- **F5 (repaired), regression witness**: `readline(); readline(5); readline(); read()` on
+    `abc\ndef\nghi\njkl\nmno\n` now returns the bytes in order (before the repair the third call
+    returned `hi\n`). -/
+theorem C05_regression_F5 :
+    (run { length := some 20, maxbytes := none, bufsize := 8192 }
+        (init [97,98,99,10,100,101,102,10,103,104,105,10,106,107,108,10,109,110,111,10] [] none)
+        [.readline none, .readline (some 5), .readline none, .read none]).1
+      = [.bytes [97,98,99,10], .bytes [100,101,102,10], .bytes [103,104,105,10],
+         .bytes [106,107,108,10,109,110,111,10]] := by decide
+
+/-- Quirk kept by the model (and allowed by the cursor spec): `readline(n)` never decrements `n`, so
+    it returns a whole line even when that is longer than `n`. -/
+theorem C05_readline_n_quirk :
+    (run { length := some 8, maxbytes := none, bufsize := 4 }
+        (init [97,98,99,100,101,102,10,103] [0, 1] none) [.readline (some 2)]).1
+      = [.bytes [97,98,99,100,101,102,10]] := by decide
+
+/-- non-vacuity of the maxbytes hypotheses: a 413 really occurs on a longer body … -/
+example : (run { length := some 6, maxbytes := some 3, bufsize := 2 }
+    (init [97,98,99,100,101,102] [] none) [.read (some 2), .read none]).1
+      = [.bytes [97,98], .err413] := by decide
+
+/-- … a shorter declared length really cuts the stream and leaves the rest on the connection … -/
+example : (run { length := some 3, maxbytes := none, bufsize := 8 }
+    (init [97,10,98,99,100] [] none) [.readlines none, .read none]) =
+      ([.lines [[97,10],[98]], .bytes []],
+       { src := [99,100], frag := [], failAt := none, off := 3, buffer := [], bytesRead := 3, done := true }) := by
+  decide
+
+/-- … and the server-wide limit event is mapped to 413. -/
+example : (run { length := none, maxbytes := none, bufsize := 2 }
+    (init [97,98,99,100] [] (some 1)) [.read none]).1 = [.err413] := by decide
+
 end CpProofs.C05
